@@ -412,9 +412,18 @@ def increment(repo, run, rule_id="C02.3"):
     want = [T("h * sum(self.stage_values * self.tableau_final[%d, 1:], axis=-1)" % row),
             T("sum(h * self.stage_values * self.tableau_final[%d, 1:], axis=-1)" % row)]
     ok = got in want
+    why = "increment is %s, the Runge-Kutta update is %s" % (got.canon(), want[0].canon())
+    if not ok:
+        # another way of writing the same weighted sum (matrix product, einsum-like forms) is decided by interpretation over tensors (E-EIN)
+        from .. import ein
+        verdict, detail = ein.weighted_sum_verdict(st_assign.value, P[5], row=row)
+        if verdict == "ok":
+            ok = True
+        elif verdict == "bad":
+            why = "the propagated increment, interpreted with %d concrete stages and abstract state axes, is not h * sum_j b_j k_j: %s" % (ein.NS, detail)
     run.judged(rid, "increment formula: %s" % got.canon(), ok=ok)
     if not ok:
-        run.report(rule_id, ITY, st_assign, "increment is %s, the Runge-Kutta update is %s" % (got.canon(), want[0].canon()))
+        run.report(rule_id, ITY, st_assign, why)
     # all stores to self.dState in step
     stores = [st for st in walk_no_nested(step) if isinstance(st, ast.Assign) and any(is_self_attr(t, "dState") for t in st.targets)]
     # compute_step result binding
